@@ -116,8 +116,10 @@ class Universe:
                 lowest_tgt = min(lowest_tgt, ti)
                 filt = rnd.choice(list(ModAffecteeFilter))
                 if forced:
-                    filt = [ModAffecteeFilter.item, rnd.choice([ModAffecteeFilter.domain, ModAffecteeFilter.domain_group,
-                                                                ModAffecteeFilter.domain_skillrq])][j]
+                    # every other forced effect has location filters only: such a projection stays applied across a
+                    # source switch (the known finding K1 concerns item-filter projections)
+                    loc = rnd.choice([ModAffecteeFilter.domain, ModAffecteeFilter.domain_group, ModAffecteeFilter.domain_skillrq])
+                    filt = [loc if k % 2 else ModAffecteeFilter.item, loc][j]
                 if forced and not self.resist_attrs and bias:
                     pass
                 if not forced and bias and self.resist_attrs and cat != EffectCategoryId.target and rnd.random() < 0.5:
@@ -639,6 +641,11 @@ class OpGen:
                     return True
         return False
 
+    def _fleet_shared(self, w):
+        """Some fit shares a fleet with another fit (then a boost reaches ships of other fits, and the load order of a
+        source switch decides what the known finding K1 lets through)."""
+        return any(ft.fleet is not None and len(ft.fleet.fits) > 1 for ft in w.ss_fits())
+
     def _untarget(self, w, doomed):
         """Ops clearing every target that points into `doomed` (set of python ids)."""
         pre = []
@@ -705,6 +712,19 @@ class OpGen:
                     for _ in range(2):
                         ops.append(('rack', fv, 'mid', 'equip', 0, 'mm', rnd.choice(anyu0.types['mm_py']), 3, 28668))
             return ops
+        if self.p.get('prefill') and self.p.get('proj_bias') and not getattr(self, '_pretargeted', False):
+            # ... and every prefilled projector aims at a ship of another fit
+            self._pretargeted = True
+            ops = []
+            ships = [x for x in w.all_items() if type(x) is Ship and x._is_loaded]
+            for it in w.all_items():
+                if hasattr(it, 'target') and it.target is None and any(
+                        e.category_id == EffectCategoryId.target for e in it._type_effects.values()):
+                    tg = [x for x in ships if x._fit is not it._fit] or ships
+                    if tg:
+                        ops.append(('target', it._vid, rnd.choice(tg)._vid))
+            if ops:
+                return ops
         if rnd.random() < self.malformed:
             op = self._malformed(w)
             if op:
@@ -737,7 +757,7 @@ class OpGen:
             'charge': 4 if mods else 0,
             'target': 10 if projectors or items else 0,
             'level': self.p.get('level_weight', 3),
-            'source': self.p.get('switch_weight', 2) if ship_ok and self.p.get('switch', True) else 0,
+            'source': self.p.get('switch_weight', 2) if (ship_ok or not self._fleet_shared(w)) and self.p.get('switch', True) else 0,
             'fleet': self.p.get('fleet_weight', 4) if any(uu.fleet for uu in w.unis) else 0,
             'profile': 1,
             'read': 6,
